@@ -77,6 +77,11 @@ impl<M> Mem for UMem<M> {
     fn size(&self) -> usize { 0 }
 }
 
+// replacement iterator for splice that carries a marker (an owned part of the Splice handle)
+pub struct RIter<K>(PhantomData<K>);
+impl<K> Iterator for RIter<K> { type Item = AnyValueWrapper<u64>; fn next(&mut self) -> Option<Self::Item> { None } }
+impl<K> ExactSizeIterator for RIter<K> {}
+
 // element classes
 #[derive(Clone)] pub struct SendOnly(core::cell::Cell<u64>);
 #[derive(Clone)] pub struct SyncOnly(u64, PhantomData<std::sync::MutexGuard<'static, ()>>);
@@ -124,6 +129,10 @@ def gen_table_program():
             row(f"Drain|{p}", f"Drain<'static, {tr}, {be}>")
             row(f"Splice|{p}", f"Splice<'static, {tr}, {be}, std::vec::IntoIter<AnyValueWrapper<u64>>>")
             row(f"RefToElement|{p}", f"&'static Element<'static, {tr}, {be}>")
+            row(f"SpliceOwningNoSend|{p}", f"Splice<'static, {tr}, {be}, RIter<NoSend>>")
+            row(f"SpliceOwningNoSync|{p}", f"Splice<'static, {tr}, {be}, RIter<NoSync>>")
+            for h in ("Element", "Pop", "Remove", "SwapRemove"):
+                lines.append(f'    println!("lazy-cloneable|{h}|{p}\\t{{}}", has!({h}<\'static, {tr}, {be}>: AnyValueCloneable));')
             if TRAITS[tn][3]:
                 row(f"LazyCloneOfElement|{p}", f"LazyClone<'static, Element<'static, {tr}, {be}>>")
                 row(f"LazyCloneOfPop|{p}", f"LazyClone<'static, Pop<'static, {tr}, {be}>>")
@@ -181,6 +190,20 @@ def check_table(table, viols, seed, counters):
                     v("handle-autotrait", f"excl-send:{h}:{tn}", f"{h}<{tn},{bn}> is Send although an exclusive reference to the vector is not (AnyVec: Send is {vs})", f"{h}|{p}")
                 if hy and not vy:
                     v("handle-autotrait", f"excl-sync:{h}:{tn}", f"{h}<{tn},{bn}> is Sync although an exclusive reference to the vector is not (AnyVec: Sync is {vy})", f"{h}|{p}")
+            # a handle owns what it was given: the replacement iterator inside a Splice
+            ns, _, _ = table[f"SpliceOwningNoSend|{p}"]
+            _, ny, _ = table[f"SpliceOwningNoSync|{p}"]
+            cells += 2
+            if ns:
+                v("handle-autotrait", f"owned-send:Splice:{tn}", f"Splice<{tn},{bn}, I> is Send although the replacement iterator it owns is not", f"SpliceOwningNoSend|{p}")
+            if ny:
+                v("handle-autotrait", f"owned-sync:Splice:{tn}", f"Splice<{tn},{bn}, I> is Sync although the replacement iterator it owns is not", f"SpliceOwningNoSync|{p}")
+            # lazy clones of owned handles exist only with Cloneable
+            for h in ("Element", "Pop", "Remove", "SwapRemove"):
+                got = table[f"lazy-cloneable|{h}|{p}"]
+                cells += 1
+                if got != tclone:
+                    v("handle-clone", f"lazy-cloneable:{h}:{tn}", f"{h}<{tn},{bn}>: AnyValueCloneable is {got}; Cloneable in the constraint set is {tclone}", f"lazy-cloneable|{h}|{p}")
     for en, (_et, es, ey, _ec) in ELEMS.items():
         for bn, (_be, bs, by, ms, my) in BACKENDS.items():
             p = f"{en}|{bn}"
